@@ -446,11 +446,15 @@ def gen_probe_conf(rng, rep, cfg):
     ids = rep.m.instants()
     if not ids:
         return None
+    last = getattr(rep, 'last_conf', None)
+    if last is not None and rng.random() < 0.4:
+        return dict(last)           # the same query again on the same object after further history (stale caches)
     start = rng.choice(ids + [ids[0] - 1, ids[-1] + 1])
     x = rng.random()
-    labels = rng.choice([['x'], ['x'], [0], ['']]) if x < 0.4 else \
+    labels = rng.choice([['x'], ['x'], [0], ['']]) if x < 0.55 else \
         rng.choice([['x', 'y'], ['x', 'y', 'x'], ['x', 'y', 'z'], ['y', 'x', 'x', 'x'], [0, 1], [1, 0, 0], ['', 'y']])
-    return {'op': 'probe_conf', 'start': start, 'delta': rng.randint(0, 4),
+    rep.last_conf = {'op': 'probe_conf', 'start': start, 'delta': rng.randint(0, 4),
             'alphas': rng.choice([[1], [2], [0.5, 1], [1, 3]]), 'labels': labels,
             'path_type': rng.choice(['shortest', 'fastest', 'foremost', 'fastest_shortest', 'shortest_fastest']),
             'sliding': rng.random() < 0.3}
+    return dict(rep.last_conf)
